@@ -24,7 +24,9 @@ type authRow struct {
 	// Req lists alternative witness sets (any one suffices); nil = nobody can make it succeed
 	// in this state, "any" = no witness needed.
 	Req  [][]string
-	Kind string // "" mutating, "update", "safe", "verify"
+	// Kind: "" mutating, "update", "safe", "verify"; "redesignate" = mutating, measured in the
+	// block right after the NeoFSAlphabet role went to the auditor key alone
+	Kind string
 }
 
 type authCase struct {
@@ -273,7 +275,17 @@ func (d *AuthGrid) Eval(x *Exec, root *Node, gc GridCase) GridResult {
 	}
 	where := map[string]any{"n": d.N, "contract": r.Contract, "method": r.Method, "signers": c.Signer}
 	var vs []*Violation
-	o, after := x.Do(root, Call{Script: Script(h, r.Method, r.Args(d, w)...), Signers: signers, Label: gc.Name})
+	var adv uint32
+	if r.Kind == "redesignate" {
+		rm := w.E.NativeHash(w.T, nativenames.Designation)
+		po, pn := x.Do(root, Call{Script: Script(rm, "designateAsRole", int64(16), []any{d.aud.Pub()}), Signers: []util.Uint160{w.Comm}, Label: "re-designate the Inner Ring"})
+		if !po.Halt {
+			hpanic("C03 re-designation: %s", po.Fault)
+		}
+		root = pn
+		adv = 1 // the measured call sits in the very next block
+	}
+	o, after := x.Do(root, Call{Script: Script(h, r.Method, r.Args(d, w)...), Signers: signers, Adv: adv, Label: gc.Name})
 	diff := DiffDumps(w.FullDump(root.L), w.FullDump(after.L))
 	inert := len(diff) == 0 && len(o.Notifs) == 0
 	out := "refused"
@@ -346,6 +358,14 @@ func authTable() []authRow {
 			a := &AudDriver{nodes: []*Account{w.Members[0]}, cids: [][]byte{h32("aud-cid")}}
 			return []any{a.blob(audOp{e: 5, cid: 0, from: 0})}
 		}, k("M0"), ""},
+		{Contract: "audit", Method: "put", Args: func(d *AuthGrid, w *World) []any {
+			a := &AudDriver{nodes: []*Account{d.aud}, cids: [][]byte{h32("aud-cid")}}
+			return []any{a.blob(audOp{e: 5, cid: 0, from: 0})}
+		}, Req: k("AUD"), Kind: "redesignate"}, // the block right after the Inner Ring changed: the new member, not a dismissed one
+		{Contract: "audit", Method: "put", Args: func(d *AuthGrid, w *World) []any {
+			a := &AudDriver{nodes: []*Account{w.Members[0]}, cids: [][]byte{h32("aud-cid")}}
+			return []any{a.blob(audOp{e: 5, cid: 0, from: 0})}
+		}, Req: nil, Kind: "redesignate"},
 		{"audit", "update", self("audit"), cm, "update"},
 		// ---- balance ----
 		{"balance", "mint", func(d *AuthGrid, w *World) []any { return []any{d.u.Hash, int64(5), []byte("m")} }, al, ""},
